@@ -87,7 +87,9 @@ def _travs_for(rng, cfg, full):
     travs.append(["iterRange", {"s": 0, "e": 0}])
     sub = rngs if full else rng.sample(rngs, min(len(rngs), 5))
     for s, e in sub:
-        for step in ((1, 2, 3) if full else (rng.choice([1, 2, 3]),)):
+        for step in ((1, 2, 3, -1, -2) if full else (rng.choice([1, 2, 3, -1, -2]),)):
+            if step < 0:
+                s, e = max(s, e), min(s, e) - 1         # a descending range
             travs.append(["iterRangeShape", {"s": s, "e": e, "step": step}])
             if (s, e, step) == sub[0] + (1,) or rng.random() < 0.3:
                 travs.append(["iterRangeShapeRef", {"s": s, "e": e, "step": step}])
